@@ -62,13 +62,12 @@ Section Ser.
     | FAnything => Ok tt
     | FEnumLit values => if py_in v values then Ok tt else Raise ValueError
     | FEnumCls cls members =>
-        if negb (py_hashable v) then Raise TypeError
-        else match v with
-             | PStr name => if alist_has members name then Ok tt else Raise ValueError
-             | PEnum cls' name _ =>
-                 if pystr_eqb cls' cls && alist_has members name then Ok tt else Raise ValueError
-             | _ => Raise ValueError
-             end
+        match v with
+        | PStr name => if alist_has members name then Ok tt else Raise ValueError
+        | PEnum cls' name _ =>
+            if pystr_eqb cls' cls && alist_has members name then Ok tt else Raise ValueError
+        | _ => Raise ValueError
+        end
     | FSeqAny k _ _ | FSeqEach k _ _ _ | FSeqPos k _ _ _ _ =>
         match seq_items k v with Some _ => Ok tt | None => Raise TypeError end
     | FSet imm _ _ =>
